@@ -19,6 +19,7 @@ import KotoVerif.Lemmas.C15Slice
 import KotoVerif.Lemmas.C15Ops
 import KotoVerif.Lemmas.C15Closed
 import KotoVerif.Lemmas.C15Refine
+import KotoVerif.Lemmas.C15Split
 import KotoVerif.Lemmas.C15Enc
 import KotoVerif.Lemmas.C15Esc
 import KotoVerif.Lemmas.C15Num
@@ -179,9 +180,21 @@ theorem utf8_closed_chars {U : UFacts} (hp : Progress U.gFirst) (hb : CutsAtBoun
     (hv : validUtf8 s = true) : ∀ p ∈ charsB U s, validUtf8 p = true :=
   segs_valid hp hb s.length s hv
 
-/-- every piece of `split(pattern)` -/
-theorem utf8_closed_split {pat s : Bytes} (hpv : validUtf8 pat = true) (hp : pat ≠ []) (hv : validUtf8 s = true)
-    (fuel : Nat) : ∀ p ∈ splitB pat fuel s, validUtf8 p = true := splitB_valid hpv hp fuel s hv
+/-- every piece of `split(pattern)` — any pattern, the empty one included -/
+theorem utf8_closed_split {pat s : Bytes} (hpv : validUtf8 pat = true) (hv : validUtf8 s = true) :
+    ∀ p ∈ splitB pat (s.length + 2) s, validUtf8 p = true := by
+  cases pat with
+  | cons c r =>
+    simp only [splitB, List.isEmpty_cons, Bool.false_eq_true, if_false]
+    exact splitNE_valid hpv (by simp) _ s hv
+  | nil =>
+    rw [splitB_empty _ s (by omega)]
+    intro p hp
+    simp only [List.mem_cons, List.mem_append, List.mem_singleton, List.not_mem_nil, or_false] at hp
+    rcases hp with rfl | hp | rfl
+    · exact valid_nil
+    · exact segs_valid progress_gFirstChar cuts_gFirstChar s.length s hv p hp
+    · exact valid_nil
 
 /-- every line -/
 theorem utf8_closed_lines {s : Bytes} (hv : validUtf8 s = true) : ∀ l ∈ linesB s [], validUtf8 l = true :=
@@ -295,15 +308,77 @@ theorem char_indices_cover {U : UFacts} (hp : Progress U.gFirst) (bs : Bytes) :
 
 example : charIndicesLoop UFacts.trivial hé 4 0 = [(0, 1), (1, 3)] := by decide
 
-/-- **split_join**: for a non-empty pattern, the pieces re-joined with the pattern are the string -/
-theorem split_join {pat : Bytes} (hp : pat ≠ []) (s : Bytes) :
-    joinWith pat (splitB pat (s.length + 2) s) = s :=
-  splitB_join hp (s.length + 2) s (by omega)
+/-- **split_join**: the pieces re-joined with the pattern are the string — for EVERY pattern (for the
+empty pattern this says that the concatenation of the pieces is the string) -/
+theorem split_join (pat s : Bytes) : joinWith pat (splitB pat (s.length + 2) s) = s := by
+  cases pat with
+  | cons c r =>
+    simp only [splitB, List.isEmpty_cons, Bool.false_eq_true, if_false]
+    exact splitNE_join (by simp) (s.length + 2) s (by omega)
+  | nil =>
+    rw [splitB_empty _ s (by omega)]
+    have hj : ∀ xs : List Bytes, joinWith [] xs = xs.flatten := by
+      intro xs
+      induction xs with
+      | nil => rfl
+      | cons x r ih =>
+        cases r with
+        | nil => simp [joinWith]
+        | cons y r2 => simp only [joinWith, List.append_nil, List.flatten_cons]; rw [ih]; simp
+    rw [hj]
+    simp only [List.flatten_cons, List.flatten_append, List.nil_append, List.flatten_nil, List.append_nil]
+    exact segs_flatten progress_gFirstChar s.length s (Nat.le_refl _)
 
 example : splitB [0x2C] 6 [0x61, 0x2C, 0x62, 0x2C] = [[0x61], [0x62], []] := by decide
 
+/-- **split terminates for every pattern**: more fuel than `len + 2` changes nothing (the iteration ends by
+itself: the repaired `Split` sets `start = len + 1` after the last piece) -/
+theorem split_terminates (pat s : Bytes) (fuel : Nat) (h : s.length + 2 ≤ fuel) :
+    splitB pat fuel s = splitB pat (s.length + 2) s := by
+  cases pat with
+  | cons c r =>
+    simp only [splitB, List.isEmpty_cons, Bool.false_eq_true, if_false]
+    exact splitNE_fuel_irrelevant (by simp) _ _ s (by omega) (by omega)
+  | nil => rw [splitB_empty _ s (by omega), splitB_empty _ s (by omega)]
+
+/-- the empty pattern splits into `''`, the characters, `''`: exactly `chars + 2` pieces -/
+theorem split_empty_pattern (s : Bytes) :
+    splitB [] (s.length + 2) s = [] :: (charsOf s ++ [[]]) ∧
+    (splitB [] (s.length + 2) s).length = (charsOf s).length + 2 := by
+  have h : splitB [] (s.length + 2) s = [] :: (charsOf s ++ [[]]) := by
+    rw [splitB_empty _ s (by omega)]
+    simp only [Utf8.graphemes, segs_gFirstChar_eq s.length s (Nat.le_refl _)]
+  exact ⟨h, by rw [h]; simp⟩
+
+example : splitB [] 5 [0x61, 0xC3, 0xA9, 0x62] = [[], [0x61], [0xC3, 0xA9], [0x62], []] ∧ splitB [] 2 [] = [[], []] := by
+  decide
+
+/-- piece count: at most one piece per byte plus one for a non-empty pattern, `chars + 2` for the empty one;
+in every case at most `bytes + 2` -/
+theorem split_count_le (pat s : Bytes) : (splitB pat (s.length + 2) s).length ≤ s.length + 2 := by
+  cases pat with
+  | cons c r =>
+    simp only [splitB, List.isEmpty_cons, Bool.false_eq_true, if_false]
+    have := splitNE_length_le (pat := c :: r) (by simp) (s.length + 2) s
+    omega
+  | nil =>
+    rw [splitB_empty _ s (by omega)]
+    have := segs_length_le progress_gFirstChar s.length s (Nat.le_refl _)
+    simp only [List.length_cons, List.length_append, List.length_nil, Utf8.graphemes]
+    omega
+
 /-- there is always at least one piece -/
-theorem split_nonempty (pat s : Bytes) : splitB pat (s.length + 2) s ≠ [] := splitB_ne_nil pat _ s
+theorem split_nonempty (pat s : Bytes) : splitB pat (s.length + 2) s ≠ [] := by
+  cases pat with
+  | cons c r => simp only [splitB, List.isEmpty_cons, Bool.false_eq_true, if_false]; exact splitNE_ne_nil _ _ s
+  | nil => simp [splitB]
+
+/-- for a non-empty pattern the first piece is empty exactly when the input is empty or starts with the
+pattern — so (with the recursion `splitNE`) an empty piece arises only at the start, at the end, or between
+two adjacent matches -/
+theorem split_empty_piece {pat : Bytes} (hp : pat ≠ []) (fuel : Nat) (rest : Bytes) :
+    (splitNE pat (fuel + 1) rest).head? = some [] ↔ (rest = [] ∨ pat.isPrefixOf rest = true) :=
+  splitNE_head_empty hp fuel rest
 
 /-- **lines_spec**: `lines` is characterised by two equations — a string without a line feed is one line
 (no line if it is empty); otherwise the first line is the text before the first line feed with one
@@ -396,10 +471,24 @@ theorem rchars_join {U : UFacts} (hp : Progress U.gLast) (s : Bytes) :
 
 example : rcharsB UFacts.trivial hé = [[0xC3, 0xA9], [0x68]] := by decide
 
-/-- `split(pattern)`: the iterator yields `splitB` -/
-theorem split_refines {s : KStr} (hw : s.WF) {pat : Bytes} (hpv : validUtf8 pat = true) (hp : pat ≠ []) :
-    ∃ ts : List KStr, splitLoop s pat (s.len + 2) 0 = some ts ∧
-      ts.map KStr.bytes = splitB pat (s.len + 2) s.bytes := splitOp_refines hw hpv hp
+/-- `split(pattern)`: the iterator yields `splitB` — for every (well-formed) pattern, the empty one
+included; the loop ends by itself with fuel to spare -/
+theorem split_refines {s : KStr} (hw : s.WF) {pat : Bytes} (hpv : validUtf8 pat = true) :
+    ∃ ts : List KStr, splitLoop s pat (s.len + 3) 0 false = some ts ∧
+      ts.map KStr.bytes = splitB pat (s.len + 2) s.bytes := by
+  have h := splitLoop_refines_all hw hpv
+  cases hr : splitLoop s pat (s.len + 3) 0 false with
+  | none => rw [hr] at h; cases h
+  | some ts => rw [hr] at h; exact ⟨ts, rfl, by simpa using h⟩
+
+/-- split by predicate: the current code drops the piece after a separator at the very end
+(F-C15-6; `split(',')` keeps it); with requests/C15-fix-4.diff applied (`keepTrailing`) both forms agree -/
+theorem split_with_trailing_witness :
+    (match splitWithOp UFacts.trivial (fun g => g == [0x2C]) (KStr.ofString [0x61, 0x2C, 0x62, 0x2C]) with
+      | .tuple xs => xs.length | _ => 0) = 2 ∧
+    (match splitWithOp UFacts.trivial (fun g => g == [0x2C]) (KStr.ofString [0x61, 0x2C, 0x62, 0x2C]) true with
+      | .tuple xs => xs.length | _ => 0) = 3 ∧
+    (splitB [0x2C] 6 [0x61, 0x2C, 0x62, 0x2C]).length = 3 := by decide
 
 /-- `lines()`: the iterator yields `linesB` -/
 theorem lines_refines {s : KStr} (hw : s.WF) :
